@@ -34,6 +34,10 @@ def compress_cases(ctx, n, nsmall, nbig=0, maxsize=None):
             ms = min(ms, 2 * level * 100000 + 50000)
         fam, d = gen.pick(rnd, level, maxsize=ms)
         cs.append(dict(fam=fam, data=d, level=level, ultra=rnd.random() < 0.4, w=rnd.choice([1, 2, 3, 4, 8, 16])))
+    for i in range(max(30, n // 8)):
+        level = rnd.choice([1, 1, 1, 2])
+        cs.append(dict(fam='chunk-straddle', data=gen.chunk_straddle(rnd, level), level=level, ultra=rnd.random() < 0.8,
+                       w=rnd.choice([1, 2, 4])))
     for i in range(nbig):
         # incompressible level-9 blocks: ~18001 coding groups each
         d = rnd.randbytes(900000 + rnd.choice([0, 1, 50, 100000]))
